@@ -143,47 +143,20 @@ func gitFamily(c map[string]json.RawMessage) (interface{}, error) {
 		}
 		return map[string]interface{}{"team": teamO, "top": topO, "age": ageO, "changelog": cm,
 			"basic": map[string]int{"Commits": basic.Commits, "Entities": basic.Entities, "Changes": basic.Changes, "Authors": basic.Authors}}, nil
-	case "gitrepo":
+	case "gitrepo", "summaryrepo":
 		var hist []gitCommit
 		if err := json.Unmarshal(c["history"], &hist); err != nil {
 			return nil, err
 		}
-		dir, err := os.MkdirTemp("", "cvg")
+		dir, err := buildRepo(hist)
+		if dir != "" {
+			defer os.RemoveAll(dir)
+		}
 		if err != nil {
 			return nil, err
 		}
-		defer os.RemoveAll(dir)
-		if _, err := runGit(dir, nil, "init", "-q", "-b", "main", "."); err != nil {
-			return nil, err
-		}
-		runGit(dir, nil, "config", "core.quotepath", "off")
-		for i, cm := range hist {
-			env := commitEnv(cm, i)
-			if len(cm.SideOps) > 0 {
-				if _, err := runGit(dir, nil, "checkout", "-q", "-b", fmt.Sprintf("side%d", i)); err != nil {
-					return nil, err
-				}
-				if err := applyOps(dir, cm.SideOps); err != nil {
-					return nil, err
-				}
-				runGit(dir, nil, "add", "-A")
-				if _, err := runGit(dir, env, "commit", "-q", "--allow-empty", "-m", cm.Subject+" (side)"); err != nil {
-					return nil, err
-				}
-				runGit(dir, nil, "checkout", "-q", "main")
-			}
-			if err := applyOps(dir, cm.Ops); err != nil {
-				return nil, err
-			}
-			runGit(dir, nil, "add", "-A")
-			if _, err := runGit(dir, env, "commit", "-q", "--allow-empty", "-m", cm.Subject); err != nil {
-				return nil, err
-			}
-			if len(cm.SideOps) > 0 {
-				if _, err := runGit(dir, env, "merge", "-q", "--no-ff", "-m", "Merge side "+cm.Subject, fmt.Sprintf("side%d", i)); err != nil {
-					return nil, err
-				}
-			}
+		if str(c, "op") == "summaryrepo" {
+			return summaryRepo(dir)
 		}
 		// ground truth, read independently of the log text under test
 		logOut, err := runGit(dir, nil, "log", "--reverse", "--date=short", "--format=%h%x1f%aN%x1f%ad%x1f%s%x1f%P")
@@ -230,4 +203,89 @@ func gitFamily(c map[string]json.RawMessage) (interface{}, error) {
 		return map[string]interface{}{"text": text, "commits": commitsOut(parsed), "truth": truth}, nil
 	}
 	return nil, nil
+}
+
+// buildRepo replays a generated history (commits with file operations, optional side branch + merge) in a fresh repository
+func buildRepo(hist []gitCommit) (string, error) {
+	dir, err := os.MkdirTemp("", "cvg")
+	if err != nil {
+		return dir, err
+	}
+	if _, err := runGit(dir, nil, "init", "-q", "-b", "main", "."); err != nil {
+		return dir, err
+	}
+	runGit(dir, nil, "config", "core.quotepath", "off")
+	for i, cm := range hist {
+		env := commitEnv(cm, i)
+		if len(cm.SideOps) > 0 {
+			if _, err := runGit(dir, nil, "checkout", "-q", "-b", fmt.Sprintf("side%d", i)); err != nil {
+				return dir, err
+			}
+			if err := applyOps(dir, cm.SideOps); err != nil {
+				return dir, err
+			}
+			runGit(dir, nil, "add", "-A")
+			if _, err := runGit(dir, env, "commit", "-q", "--allow-empty", "-m", cm.Subject+" (side)"); err != nil {
+				return dir, err
+			}
+			runGit(dir, nil, "checkout", "-q", "main")
+		}
+		if err := applyOps(dir, cm.Ops); err != nil {
+			return dir, err
+		}
+		runGit(dir, nil, "add", "-A")
+		if _, err := runGit(dir, env, "commit", "-q", "--allow-empty", "-m", cm.Subject); err != nil {
+			return dir, err
+		}
+		if len(cm.SideOps) > 0 {
+			if _, err := runGit(dir, env, "merge", "-q", "--no-ff", "-m", "Merge side "+cm.Subject, fmt.Sprintf("side%d", i)); err != nil {
+				return dir, err
+			}
+		}
+	}
+	return dir, nil
+}
+
+// summaryRepo: the command itself in that repository, in a fresh process: `coca git -b -t -o`. The commits are read back from
+// coca_reporter/commits.json, the printed tables are returned as they are (header + rows each)
+func summaryRepo(dir string) (interface{}, error) {
+	os.Setenv("GIT_CONFIG_NOSYSTEM", "1")
+	os.Setenv("HOME", dir)
+	stdout, err := cocaCli(dir, "git", "-b", "-t", "-o")
+	if err != nil {
+		return nil, err
+	}
+	b, err := os.ReadFile(filepath.Join(dir, "coca_reporter", "commits.json"))
+	if err != nil {
+		return nil, err
+	}
+	var commits []gitapp.CommitMessage
+	if err := json.Unmarshal(b, &commits); err != nil {
+		return map[string]interface{}{"reportUnreadable": err.Error()}, nil
+	}
+	tables := []map[string]interface{}{}
+	lines := strings.Split(stdout, "\n")
+	for i := 0; i < len(lines); i++ {
+		if !strings.HasPrefix(lines[i], "|") || i+1 >= len(lines) || !strings.HasPrefix(lines[i+1], "|-") {
+			continue
+		}
+		cells := func(l string) []string {
+			parts := strings.Split(l, "|")
+			out := []string{}
+			for _, p := range parts[1 : len(parts)-1] {
+				out = append(out, strings.TrimSpace(p))
+			}
+			return out
+		}
+		t := map[string]interface{}{"header": cells(lines[i])}
+		rows := [][]string{}
+		k := i + 2
+		for ; k < len(lines) && strings.HasPrefix(lines[k], "|") && !(k+1 < len(lines) && strings.HasPrefix(lines[k+1], "|-")); k++ {
+			rows = append(rows, cells(lines[k]))
+		}
+		t["rows"] = rows
+		tables = append(tables, t)
+		i = k - 1
+	}
+	return map[string]interface{}{"commits": commits, "tables": tables}, nil
 }
